@@ -31,6 +31,9 @@ type c07Case struct {
 	Detached  bool   `json:"detached_key,omitempty"`
 	Setter    bool   `json:"key_through_setter,omitempty"` // SP key given through SetSPKeyStore only
 	Custom    bool   `json:"custom_key_store,omitempty"`   // SPKeyStore field holds a key store of a custom type
+	// Chain: the SPKeyStore field holds the SP certificate followed by a second certificate with a
+	// wider validity window (a configured chain); only the SP certificate's own window counts
+	Chain bool `json:"certificate_chain,omitempty"`
 }
 
 func c07Spec(c c07Case, encrypted bool) idp.ResponseSpec {
@@ -84,13 +87,16 @@ func c07ExecOn(c c07Case, live *saml2.SAMLServiceProvider) (keys []string, detai
 	enc := idp.RenderResponse(c07Spec(c, true))
 	twin := idp.RenderResponse(c07Spec(c, false))
 	sp := conf.Build()
+	if c.Chain {
+		sp.SPKeyStore = world.TLSKeyStoreChain("KS", "K2")
+	}
 	if live != nil {
 		// only what differs from the previous call is touched: the key store is replaced only when
 		// its certificate state changes (replacing it through the setter on every call would also
 		// drop whatever the instance remembers about its key, and hide it)
 		live.Clock = sp.Clock
 		live.ValidateEncryptionCert = sp.ValidateEncryptionCert
-		state := fmt.Sprintf("%v/%v/%s", c.Setter, c.Custom, c.CertState)
+		state := fmt.Sprintf("%v/%v/%s/%v", c.Setter, c.Custom, c.CertState, c.Chain)
 		if prev, seen := c07LiveState.Load(live); !seen || prev.(string) != state {
 			c07LiveState.Store(live, state)
 			if c.Setter {
@@ -276,7 +282,7 @@ func c07Replay(raw json.RawMessage) ([]string, string) {
 }
 
 func c07Run(r *mc.Run) {
-	r.Rule = "Part A: the attacker BFS and tree enumeration of C01 (encrypt operator over 8 algorithm/recipient variants at every assertion; X(G)/X(E) tree labels), judged by the pool and direct-child invariants. Part B: full product placement(2) x ValidateEncryptionCert(2) x clock position(11) x SP certificate state(3) x recipient certificate(4) x data algorithm(5) x EncryptedKey placement(2: inline, detached) x SP key API(3: SPKeyStore field as TLS or custom key store type, SetSPKeyStore); plus Responses with two assertions encrypted under one session key, full product signing placement(2) x per assertion (EncryptedKey placement(2) x recipient certificate(3: none, the SP's, a foreign one)) x key API(2): refused iff either names a foreign certificate, else equal to the plaintext twin. non-trivial = decryption was attempted (an EncryptedAssertion reached the decrypt step) or the state was accepted; distinct = distinct (input, configuration)"
+	r.Rule = "Part A: the attacker BFS and tree enumeration of C01 (encrypt operator over 8 algorithm/recipient variants at every assertion; X(G)/X(E) tree labels), judged by the pool and direct-child invariants. Part B: full product placement(2) x ValidateEncryptionCert(2) x clock position(11) x SP certificate state(3) x recipient certificate(4) x data algorithm(5) x EncryptedKey placement(2: inline, detached) x SP key API(4: SPKeyStore field as TLS, as TLS with a two-certificate chain whose second certificate outlives the SP's, or as a custom key store type; SetSPKeyStore); near misses of the SP certificate as named recipient (letter case of the base64 text, truncated, extended, one bit changed: refused; line-wrapped: the same certificate); plus Responses with two assertions encrypted under one session key, full product signing placement(2) x per assertion (EncryptedKey placement(2) x recipient certificate(3: none, the SP's, a foreign one)) x key API(2): refused iff either names a foreign certificate, else equal to the plaintext twin. non-trivial = decryption was attempted (an EncryptedAssertion reached the decrypt step) or the state was accepted; distinct = distinct (input, configuration)"
 	r.Assume("RSA/ECDSA unforgeable", "the harness's own XML-Enc encryptor/decryptor (idp/enc.go)")
 	var cases []c07Case
 	n, _ := mc.Enumerate(-1, r.Expired, func(ch *mc.Chooser) {
@@ -293,6 +299,10 @@ func c07Run(r *mc.Run) {
 			c.Custom = ch.Bool("custom-key-store")
 		}
 		cases = append(cases, c)
+		if !c.Setter && !c.Custom && c.CertState == "" {
+			c.Chain = true
+			cases = append(cases, c)
+		}
 	})
 	mc.Enumerate(-1, r.Expired, func(ch *mc.Chooser) {
 		c := c07Case{Clock: 0} // mid-window
@@ -346,7 +356,7 @@ func c07Run(r *mc.Run) {
 	groups := map[string][]c07Case{}
 	var order []string
 	for _, c := range cases {
-		k := fmt.Sprintf("%s/%s/%d/%v/%v/%v", c.Placement, c.Recip, c.DataAlg, c.Detached, c.Setter, c.Custom)
+		k := fmt.Sprintf("%s/%s/%d/%v/%v/%v/%v", c.Placement, c.Recip, c.DataAlg, c.Detached, c.Setter, c.Custom, c.Chain)
 		if _, ok := groups[k]; !ok {
 			order = append(order, k)
 		}
